@@ -26,7 +26,13 @@ class C09(Prop):
                 'actions': [['start'], ['tick'], ['cancelJ'], ['tick'], ['tick']]}
         f12 = {'policy': 'all', 'mode': 'join', 'members': [{'react': 'slow', 'daemon': False}, {'react': 'reraise', 'daemon': False}],
                'actions': [['start'], ['tick'], ['tick'], ['tick'], ['finish', 1, ['exc']]] + [['tick']] * 6 + [['cancelJ']] + [['tick']] * 6}
-        return [f11, f12, f12b]
+        # groups holding only daemons, left through the context manager with a clean body: the daemons are cancelled and waited for
+        d1 = {'policy': 'all', 'retain': False, 'init': [], 'mode': 'aexit', 'members': [{'react': 'reraise', 'daemon': True}],
+              'actions': [['tick'], ['tick'], ['start']] + [['tick']] * 40}
+        d2 = {'policy': 'object', 'retain': True, 'init': [], 'mode': 'aexit',
+              'members': [{'react': 'reraise', 'daemon': True}, {'react': 'reraise', 'daemon': True}],
+              'actions': [['tick'], ['start']] + [['tick']] * 40}
+        return [f11, f12, f12b, d1, d2]
 
     def generate(self, rng, n, tier):
         for _ in range(n):
